@@ -348,6 +348,10 @@ func checkC18(c *core.Ctx) {
 			return
 		}
 		c.Set("model_with_one_fault_violates", r.ViolatedName)
+		// and with failure detection on, a healthy two-node cluster removes a live member (KF-C18-4 at design level)
+		if r3, err := tlc.Exec(tlc.Run{Dir: dir, Module: "MC_Gossip", Config: "MC_FD2.cfg", Timeout: 5 * time.Minute}); err == nil {
+			c.Set("model_with_failure_detection_violates", r3.ViolatedName)
+		}
 	}
 	var traces []*Trace
 	seen := map[string]bool{}
